@@ -1,3 +1,4 @@
 import Proofs.LFU
 import Proofs.Pickle
 import Proofs.PickleEnc
+import Proofs.Path
